@@ -326,7 +326,15 @@ EXTRA = {
            "remove, reset, clone and local-counter-vector operations, or one histogram vector without local vectors) the executable spec written from "
            "the property text is true of the model's own run; c05_model_violation_needs_collision: there the model can contradict the text only through "
            "two different tuples with one FNV-1a-64 key (the known class).",
-    "C06": " c06_spec_model: for every history over 29 operations (all collector constructors, registries, register/unregister/gather, updates, reads) "
+    "C06": " CONCURRENT histories (calls issued from several threads must behave as if executed one at a time): Model/RegConc.v models the "
+           "registry's RwLock and tables; for ALL traces and any number of threads register / unregister / gather are linearizable to the sequential "
+           "registry with the linearisation step inside the call window (c06_conc_lin), a registration's result is the sequential verdict on the "
+           "tables at that step (c06_conc_admission), two overlapping registrations sharing a descriptor never both succeed "
+           "(c06_conc_no_double_admission) nor do two that disagree on a shared name (c06_conc_no_disagreeing_admission); tied to the code by "
+           "`C reg` traces of the real Registry under the deterministic scheduler (lock events from the shim, hook b7bc88f) validated event by "
+           "event, plus an executable spec (one real-time-consistent order explained by the structural admission rule). The spec exposed a "
+           "genuine defect - collectors filed under the wrapping SUM of their descriptor ids, sums coinciding for ordinary collectors - repaired "
+           "by edcf206 (hash of the sorted ids); model, proofs (hypothesis cids_exact_on) and corpus follow. c06_spec_model: for every history over 29 operations (all collector constructors, registries, register/unregister/gather, updates, reads) "
            "with no hash collision among its descriptors (decided by computation) spec_c06 - result kinds, no trace of refused calls, gather clause - "
            "is true of the model's own run.",
     "C07": " c07_spec_model_partial / c07_spec_strict_partial / c07_known_delimited_partial: for all histories of the covered sub-language (everything "
